@@ -379,6 +379,26 @@ def scenarios(tier):
             results=res, menu=['rerun'], max_cmds=1, only_tasks=['s'],
             compare_ctx=False, items_to_rerun=1)
         jobs.append((scn, 0 if quick else 1, 60 if quick else 1200, 1))
+    # the rerun inside a child while the parent execution is still RUNNING
+    # for another reason (a parallel branch held by wait-before): the parent
+    # task - ERROR - must be put back to RUNNING all the same.  No completion
+    # check of the failure is pending here, so none of the known rerun
+    # histories is involved
+    for o in ('SE', 'EE'):
+        prog = make_prog(2, None, sub=True)
+        prog['tasks']['a'].pop('on-complete')
+        prog['tasks']['a']['on-success'] = ['b']
+        prog['tasks']['p'] = wfgen.T(**{'wait-before': 3})
+        res = {'i%d' % k: ([o[k]] if o[k] == 'S' else ['E', 'S'])
+               for k in range(2)}
+        res['b'] = ['S']
+        res['p'] = ['S']
+        scn = SubRerunScenario(
+            'items_subwf_parallel_branch/rerun_children/%s' % o, prog,
+            items=['i0', 'i1'], results=res, menu=['rerun'],
+            max_cmds=o.count('E'), only_tasks=['s'], compare_ctx=False,
+            items_to_rerun=o.count('E'))
+        jobs.append((scn, 0 if quick else 1, 60 if quick else 1200, 1))
     # the database refuses the first commit of every rerun / skip command
     # as a deadlock victim: the engine retries the transaction
     for scn, bound, secs, na in list(jobs):
